@@ -10,6 +10,8 @@ for cf in sorted(glob.glob(SEEDDIR + '/confirm/*.json')):
     ok = c['applies'] and ('92 passed' in c['suite']) and 'FAILED' in c['demo_with_change'] and c['demo_without_change'].startswith('test result: ok')
     src = SEEDDIR + '/%s/out' % pid
     dst = os.path.join(VERIF, 'seeded', '%s-%s%s' % (pid, TAG, m))
+    if not os.path.exists(os.path.join(src, m + '.patch')):
+        continue   # already imported earlier, scratch output removed
     if not ok:
         print('NOT CONFIRMED', pid, m, c)
         continue
